@@ -123,7 +123,7 @@ type Conc struct {
 	salt    int64
 	sizes   []int
 	atoms   map[string][]byte
-	keyMode int // 0 plain; 1 rich (UTF-8, characters needing URL escaping)
+	keyMode int // 0 plain; 1 rich (UTF-8, characters needing URL escaping); 2 rich2 (base64-hostile bytes)
 	small   bool
 }
 
@@ -210,6 +210,21 @@ var richMap = map[byte]string{
 	'd': "dé", 'x': "x世", 'y': "y~'", 'z': "zü",
 }
 
+// richMap2 (key mode 2): the same kind of substitution, chosen so that the third byte of every image is '~', '?'
+// or '>' -- bytes whose low six bits are 62 or 63, i.e. the two characters in which the URL-safe and the
+// standard base64 alphabets differ -- so that tokens derived from keys contain them.
+var richMap2 = map[byte]string{
+	'-': "-->", '/': "/", '0': "00~", '1': "11?", '2': "22>", 'a': "aa~", 'b': "bb?", 'c': "cc>",
+	'd': "dd~", 'x': "xx?", 'y': "yy>", 'z': "zz~",
+}
+
+func (c *Conc) keyMap() map[byte]string {
+	if c.keyMode == 2 {
+		return richMap2
+	}
+	return richMap
+}
+
 // padKey extends base with '/'-separated segments of 'p' to exactly total bytes.
 func padKey(base string, total int) string {
 	// (the first padding byte is '-', so that the padded key is a sibling of
@@ -244,7 +259,7 @@ func (c *Conc) Key(k string) string {
 	}
 	var sb strings.Builder
 	for i := 0; i < len(k); i++ {
-		if s, ok := richMap[k[i]]; ok {
+		if s, ok := c.keyMap()[k[i]]; ok {
 			sb.WriteString(s)
 		} else {
 			sb.WriteByte(k[i])
@@ -266,7 +281,7 @@ func (c *Conc) Unkey(k string) string {
 	// greedy: richMap images are prefix-free and keyed by first byte
 	var sb strings.Builder
 	for i := 0; i < len(k); {
-		if s, ok := richMap[k[i]]; ok && strings.HasPrefix(k[i:], s) {
+		if s, ok := c.keyMap()[k[i]]; ok && strings.HasPrefix(k[i:], s) {
 			sb.WriteByte(k[i])
 			i += len(s)
 		} else {
